@@ -248,7 +248,10 @@ def check_compute_jacobian(ctx: Ctx) -> None:
             oname, ojac = (dotted(e) for e in inner[0].target.elts)
             v = news[0].value
             fresh = (isinstance(v, ast.Call) and dotted(v.func) == "dict" and len(v.args) == 1 and dotted(v.args[0]) == ojac) or (isinstance(v, ast.Call) and last_attr(v) == "copy" and dotted(v.func.value) == ojac) or (isinstance(v, ast.Dict) and len(v.keys) == 1 and v.keys[0] is None and dotted(v.values[0]) == ojac)
-            ok = dotted(news[0].targets[0].slice) == oname and fresh and not [tv for tv in branch_conditions(cg, cg.node_of(news[0])) if cg.kind[tv[0]] == "test"]
+            # the only condition allowed on the replacement is "this discipline has a Jacobian" (a failed one has None)
+            guards = [norm_stmt(cg.ast[tv[0]].test) + ("" if tv[1] else " [false]") for tv in branch_conditions(cg, cg.node_of(news[0])) if cg.kind[tv[0]] == "test"]
+            jv = dotted(jl[0].target)
+            ok = dotted(news[0].targets[0].slice) == oname and fresh and all(g_ in (f"{jv} is None [false]", f"{jv} is not None", f"{jv}") for g_ in guards)
     ctx.ob("9.3-last-wins", cname(PC, "MDOParallelChain", "_compute_jacobian"), bool(ok), "the Jacobian row of an output must be REPLACED by (a copy of) the row of each later discipline computing it, in the order of the disciplines: merging rows keeps blocks of a discipline whose value was overwritten; aliasing the discipline's own row lets the zero filling write into it", node=(news or merges or [g])[0], stmt="row of the last discipline replaces the previous one (copied)")
     # additive chain
     h = ctx.index.method(AC, "MDOAdditiveChain", "_compute_jacobian")
